@@ -1271,14 +1271,33 @@ impl SparqlDatabase {
         let chunk_size = 1000;
         let chunks: Vec<Vec<String>> = lines.chunks(chunk_size).map(|c| c.to_vec()).collect();
 
+        // Prefix declarations apply to the rest of the document and the database may already
+        // know some, but every chunk is parsed by a private database: give each the full table.
+        let mut known_prefixes = self.prefixes.clone();
+        for raw_line in &lines {
+            let line = raw_line.split('#').next().unwrap_or("").trim();
+            if line.starts_with("@prefix") {
+                let line = line.trim_start_matches("@prefix").trim_end_matches('.');
+                let parts: Vec<&str> = line.split_whitespace().collect();
+                if parts.len() >= 2 {
+                    known_prefixes.insert(
+                        parts[0].trim_end_matches(':').to_string(),
+                        parts[1].trim_start_matches('<').trim_end_matches('>').to_string(),
+                    );
+                }
+            }
+        }
+
         let partial_results: Vec<(
             Vec<Triple>,
             Arc<RwLock<Dictionary>>,
+            Arc<RwLock<QuotedTripleStore>>,
             HashMap<String, String>,
         )> = chunks
             .par_iter()
             .map(|chunk| {
                 let mut local_db = SparqlDatabase::new();
+                local_db.prefixes = known_prefixes.clone();
                 let mut statement = String::new();
 
                 for raw_line in chunk {
@@ -1316,20 +1335,43 @@ impl SparqlDatabase {
                 (
                     local_db.query_default_triples(None, None, None),
                     local_db.dictionary,
+                    local_db.quoted_triple_store,
                     local_db.prefixes,
                 )
             })
             .collect();
 
-        for (triples, dict_arc, pref) in partial_results {
-            for t in triples {
+        for (triples, dict_arc, quoted_arc, pref) in partial_results {
+            // Identifiers issued by a chunk's private dictionary mean nothing in this database:
+            // translate every term through its lexical form instead of merging the id tables.
+            let translated_triples: Vec<Triple> = {
+                let other_dict = dict_arc.read().unwrap();
+                let other_quoted = quoted_arc.read().unwrap();
+                let mut self_dict = self.dictionary.write().unwrap();
+                let mut self_quoted = self.quoted_triple_store.write().unwrap();
+                let mut translated_ids = HashMap::new();
+                let mut translate = |id: u32| {
+                    reencode_term_id(
+                        id,
+                        &other_dict,
+                        &other_quoted,
+                        &mut self_dict,
+                        &mut self_quoted,
+                        &mut translated_ids,
+                    )
+                };
+                triples
+                    .iter()
+                    .map(|t| Triple {
+                        subject: translate(t.subject),
+                        predicate: translate(t.predicate),
+                        object: translate(t.object),
+                    })
+                    .collect()
+            };
+            for t in translated_triples {
                 self.add_triple(t);
             }
-            let mut self_dict = self.dictionary.write().unwrap();
-            let other_dict = dict_arc.read().unwrap();
-            self_dict.merge(&other_dict);
-            drop(other_dict);
-            drop(self_dict);
             for (k, v) in pref {
                 self.prefixes.insert(k, v);
             }
